@@ -160,18 +160,18 @@ End ==
      ELSE IF ~PolicyGreedy THEN Reject("end: returned policy is not greedy for the returned values")
      ELSE IF T.kind = "SAVI" /\ T.shuffle /\ M.ns >= 4 /\ Cardinality(perms) = 1 /\ iter - T.iter0 >= 3
        THEN Reject("end: the same permutation was used in every sweep (not drawn afresh)")
-     ELSE IF stopped /\ T.cert.kind # "none" /\ ~CertOK
+     ELSE IF stopped /\ i = Len(T.ev) /\ T.cert.kind # "none" /\ ~CertOK
        THEN Reject("MACHINERY: certificate supplied by the harness does not verify")
-     ELSE IF stopped /\ T.cert.kind = "discounted" /\ T.kind # "PVI"
+     ELSE IF stopped /\ i = Len(T.ev) /\ T.cert.kind = "discounted" /\ T.kind # "PVI"
              /\ ~(T.kind = "SAVI" /\ T.test = "span")
              /\ ~NearOptimalPolicy(T.kind, T.test, M, T.eps, T.cert.vsn, T.cert.vpn, T.cert.cd)
        THEN Reject("end: converged, but the returned policy is not within the documented error bound of optimal")
-     ELSE IF stopped /\ T.cert.kind = "discounted" /\ T.kind # "PVI" /\ T.test = "max_diff"
+     ELSE IF stopped /\ i = Len(T.ev) /\ T.cert.kind = "discounted" /\ T.kind # "PVI" /\ T.test = "max_diff"
              /\ ~ValuesNearOptimal(M, T.eps, V, T.cert.vsn, T.cert.cd)
        THEN Reject("end: converged under max_diff, but the returned values are not within epsilon of optimal")
-     ELSE IF stopped /\ T.cert.kind = "gain" /\ T.kind = "RVI" /\ ~(Ev.gok /\ GainOK(Ev.g))
+     ELSE IF stopped /\ i = Len(T.ev) /\ T.cert.kind = "gain" /\ T.kind = "RVI" /\ ~(Ev.gok /\ GainOK(Ev.g))
        THEN Reject("end: converged, but gain / policy gain / optimality equation are not within epsilon")
-     ELSE IF stopped /\ T.cert.kind = "gain" /\ T.kind = "PVI" /\ ~PeriodGainOK
+     ELSE IF stopped /\ i = Len(T.ev) /\ T.cert.kind = "gain" /\ T.kind = "PVI" /\ ~PeriodGainOK
        THEN Reject("end: converged, but (V_n - V_(n-period))/period is not within epsilon/period of the optimal gain")
      ELSE /\ budget' = -1 /\ stopped' = FALSE
           /\ i' = i + 1
